@@ -2,6 +2,7 @@ import VlsModel.Model.Enforcement
 import VlsModel.Gen.FnEnforce
 import VlsModel.Gen.FnSimpleState
 import VlsModel.Gen.FnChannelForceClose
+import VlsModel.Gen.FnChannelRevoke
 import VlsModel.Lemmas.FnGen
 import VlsModel.Lemmas.EnforcementFn
 import VlsModel.Lemmas.HandlerFn
@@ -506,5 +507,190 @@ example :
   exact C02_fn_sign_holder_phase2_no_signature_without_write _ _ _ _ _ _ _ _ _ _ _ _ _ _ (by intro u; simp [Rs.fail]) r
 
 end ForceClose
+
+/-! ### Round 10: `Channel::revoke_previous_holder_commitment` itself (`Gen/FnChannelRevoke.lean`)
+
+channel.rs:1246 with its helpers `advance_holder_commitment_state` (:1089), `release_commitment_secret` (:1109),
+`get_per_commitment_secret`, `get_per_commitment_point`, regenerated on every run (targets
+`translate/fn_targets/ChannelRevoke.b1.json`; payment summaries / `validate_payments` / `Validator::set_next_holder_commit_num`
+/ `persist()` are declared externals).  Clauses of C02 (and C01) stated on the generated body, under a filter that keeps
+the two guard tags errors: a closed channel never advances and discloses no NEW secret; the state advances only from a
+staged commitment, after the payment re-check, and is written before the secret leaves; every disclosed secret `n-1`
+satisfies the release guard `(n-1) + 2 ≤ next` on the state that is returned. -/
+section Revoke
+open VlsModel.Gen.FnChannelRevoke (EnforcementState CommitmentInfo2 ChannelSetup Channel)
+
+variable {CommitmentSignatures InMemorySigner ChannelId PublicKey SecretKey Validator Secret32 PaymentSummary Node NodeState
+  BalanceDelta : Type}
+variable (unchecked : Nat → PublicKey) (validator : Validator) (f : String → Bool)
+  (rel : InMemorySigner → Nat → Option Secret32) (fs : Secret32 → Option SecretKey)
+
+/-- the release guard of the generated `get_per_commitment_secret`: a secret of `k` only when `k + 2 ≤ next` -/
+theorem C02_fn_revoke_secret_guard (hf : f "policy-revoke-new-commitment-signed" = true)
+    (self : Channel CommitmentSignatures InMemorySigner ChannelId) (k : Nat) (s : SecretKey)
+    (h : Channel.get_per_commitment_secret validator f rel fs self k = .ok s) :
+    k + 2 ≤ self.enforcement_state.next_holder_commit_num := by
+  unfold Channel.get_per_commitment_secret at h
+  by_cases hg : k + 2 ≤ self.enforcement_state.next_holder_commit_num
+  · exact hg
+  · exfalso
+    dsimp only at h
+    split at h
+    · rename_i m hm
+      split at h
+      · obtain ⟨_, h1, _⟩ := fc_bind_ok h
+        simp [Rs.policyErr, hf, Rs.fail] at h1
+      · rename_i hd
+        unfold Rs.ucheckedAdd at hm
+        split at hm
+        · cases hm; simp at hd; omega
+        · cases hm
+    · rw [if_pos rfl] at h
+      obtain ⟨_, h1, _⟩ := fc_bind_ok h
+      simp [Rs.policyErr, hf, Rs.fail] at h1
+
+/-- the generated `release_commitment_secret`: the channel is returned unchanged; a secret in the reply is that of `n - 1`
+    and passed the release guard (`n + 1 ≤ next`) -/
+theorem C02_fn_release_commitment_secret (hf : f "policy-revoke-new-commitment-signed" = true)
+    (self self' : Channel CommitmentSignatures InMemorySigner ChannelId) (n : Nat) (pt : PublicKey) (sec : Option SecretKey)
+    (h : Channel.release_commitment_secret unchecked validator f rel fs self n = .ok (self', (pt, sec))) :
+    self' = self ∧ (sec ≠ none → 1 ≤ n ∧ n + 1 ≤ self.enforcement_state.next_holder_commit_num) := by
+  unfold Channel.release_commitment_secret at h
+  obtain ⟨p, _, h⟩ := fc_bind_ok h
+  by_cases hn : n ≥ 1
+  · simp only [hn, decide_true, if_true] at h
+    obtain ⟨k, hk, h⟩ := fc_bind_ok h
+    obtain ⟨s, hs, h⟩ := fc_bind_ok h
+    have hsub : Rs.usub n 1 = .ok (n - 1) := by simp [Rs.usub, hn]
+    have hkv : n - 1 = k := Except.ok.inj (hsub.symm.trans hk)
+    have hgd := C02_fn_revoke_secret_guard validator f rel fs hf self k s hs
+    have h' : (self, p, some s) = (self', pt, sec) := Except.ok.inj h
+    cases h'
+    exact ⟨rfl, fun _ => ⟨hn, by omega⟩⟩
+  · simp only [hn, decide_false] at h
+    have h' : (self, p, (none : Option SecretKey)) = (self', pt, sec) := Except.ok.inj h
+    cases h'
+    exact ⟨rfl, fun hne => absurd rfl hne⟩
+
+variable (incoming outgoing : EnforcementState CommitmentSignatures → Option CommitmentInfo2 → Option CommitmentInfo2 → PaymentSummary)
+  (node : Node) (getState : Node → NodeState)
+  (claimable : EnforcementState CommitmentSignatures → NodeState → Option CommitmentInfo2 → Option CommitmentInfo2 → ChannelSetup → Rs.M BalanceDelta)
+  (validatePayments : NodeState → ChannelId → PaymentSummary → PaymentSummary → BalanceDelta → Validator → Rs.M Unit)
+  (setNext : Validator → EnforcementState CommitmentSignatures → Nat → CommitmentInfo2 → CommitmentSignatures → Rs.M (EnforcementState CommitmentSignatures))
+  (persist : EnforcementState CommitmentSignatures → Rs.M Unit)
+
+/-- **`revoke_previous_holder_commitment` on its generated body.**  A reply is either the no-state-change path
+    (`n ≠ next`: channel unchanged, nothing written, a secret only behind the release guard) or the advance
+    (`n = next`): the channel was NOT closed, a validated commitment was staged, the payment re-check passed, the new state is
+    `set_next_holder_commit_num(n + 1, staged)` of the state with the staging slot cleared, that state was written
+    successfully, and the secret of `n - 1` passed the release guard on the new state. -/
+theorem C02_fn_revoke_previous_holder_commitment
+    (hc : f "policy-revoke-not-closed" = true) (hf : f "policy-revoke-new-commitment-signed" = true)
+    (self self' : Channel CommitmentSignatures InMemorySigner ChannelId) (n : Nat) (pt : PublicKey) (sec : Option SecretKey)
+    (h : Channel.revoke_previous_holder_commitment unchecked validator f rel fs incoming outgoing node getState claimable
+           validatePayments setNext persist self n = .ok (self', (pt, sec))) :
+    (n ≠ self.enforcement_state.next_holder_commit_num ∧ self' = self ∧
+        (sec ≠ none → 1 ≤ n ∧ n + 1 ≤ self.enforcement_state.next_holder_commit_num))
+    ∨ (n = self.enforcement_state.next_holder_commit_num ∧ self.enforcement_state.channel_closed = false ∧
+        ∃ info sigs es',
+          self.enforcement_state.next_holder_commit_info = some (info, sigs) ∧
+          setNext validator { self.enforcement_state with next_holder_commit_info := none } (n + 1) info sigs = .ok es' ∧
+          self' = { self with enforcement_state := es' } ∧
+          persist es' = .ok () ∧
+          (sec ≠ none → 1 ≤ n ∧ n + 1 ≤ es'.next_holder_commit_num)) := by
+  unfold Channel.revoke_previous_holder_commitment at h
+  by_cases hne : n = self.enforcement_state.next_holder_commit_num
+  · right
+    simp only [bne_iff_ne, ne_eq, hne, not_true_eq_false, if_false] at h
+    have hcl : self.enforcement_state.channel_closed = false := by
+      cases hcl : self.enforcement_state.channel_closed
+      · rfl
+      · rw [if_pos hcl] at h
+        obtain ⟨_, hg2, _⟩ := fc_bind_ok h
+        simp [Rs.policyErr, hc, Rs.fail] at hg2
+    have hnc : ¬ (self.enforcement_state.channel_closed = true) := by simp [hcl]
+    rw [if_neg hnc] at h
+    cases hst : self.enforcement_state.next_holder_commit_info with
+    | none =>
+      rw [hst] at h
+      obtain ⟨_, hg2, _⟩ := fc_bind_ok h
+      simp [Rs.policyErr, hf, Rs.fail] at hg2
+    | some st =>
+      obtain ⟨info, sigs⟩ := st
+      rw [hst] at h
+      simp only [Option.isNone_some, Bool.false_eq_true, if_false] at h
+      obtain ⟨t2, ht2, h⟩ := fc_bind_ok h
+      have ht2v : (info, sigs) = t2 := Except.ok.inj ht2
+      subst ht2v
+      obtain ⟨delta, _, h⟩ := fc_bind_ok h
+      obtain ⟨_, _, h⟩ := fc_bind_ok h
+      obtain ⟨⟨s1, p1, ms⟩, hadv, h⟩ := fc_bind_ok h
+      obtain ⟨u, hper, h⟩ := fc_bind_ok h
+      have h' : (s1, p1, ms) = (self', pt, sec) := Except.ok.inj h
+      cases h'
+      unfold Channel.advance_holder_commitment_state at hadv
+      obtain ⟨n1, hn1, hadv⟩ := fc_bind_ok hadv
+      obtain ⟨es', hes, hadv⟩ := fc_bind_ok hadv
+      have hn1v : n1 = self.enforcement_state.next_holder_commit_num + 1 := by
+        unfold Rs.uadd at hn1; split at hn1
+        · exact (Except.ok.inj hn1).symm
+        · cases hn1
+      obtain ⟨hs1, hsec⟩ := C02_fn_release_commitment_secret unchecked validator f rel fs hf _ self' _ pt sec hadv
+      subst hs1
+      refine ⟨hne, hcl, info, sigs, es', rfl, ?_, rfl, by cases u; exact hper, ?_⟩
+      · rw [hne, ← hn1v]; exact hes
+      · intro hs; have := hsec hs; rw [hne]; exact this
+  · left
+    have hb : (n != self.enforcement_state.next_holder_commit_num) = true := by simp [hne]
+    simp only [hb, if_true] at h
+    obtain ⟨hs, hsec⟩ := C02_fn_release_commitment_secret unchecked validator f rel fs hf self self' n pt sec h
+    exact ⟨hne, hs, hsec⟩
+
+/-- **C02 on the code: once a closing signature marked the channel closed, revocation never advances the state** —
+    the channel comes back unchanged, nothing is written, and a secret in the reply is one the release guard already
+    allowed (`(n-1) + 2 ≤ next`, i.e. revoked before the signature). -/
+theorem C02_fn_revoke_closed_no_advance
+    (hc : f "policy-revoke-not-closed" = true) (hf : f "policy-revoke-new-commitment-signed" = true)
+    (self self' : Channel CommitmentSignatures InMemorySigner ChannelId) (n : Nat) (pt : PublicKey) (sec : Option SecretKey)
+    (hclosed : self.enforcement_state.channel_closed = true)
+    (h : Channel.revoke_previous_holder_commitment unchecked validator f rel fs incoming outgoing node getState claimable
+           validatePayments setNext persist self n = .ok (self', (pt, sec))) :
+    self' = self ∧ (sec ≠ none → 1 ≤ n ∧ (n - 1) + 2 ≤ self.enforcement_state.next_holder_commit_num) := by
+  rcases C02_fn_revoke_previous_holder_commitment unchecked validator f rel fs incoming outgoing node getState claimable
+      validatePayments setNext persist hc hf self self' n pt sec h with ⟨_, hs, hsec⟩ | ⟨_, hcl, _⟩
+  · exact ⟨hs, fun hne => by have := hsec hne; omega⟩
+  · rw [hclosed] at hcl; cases hcl
+
+/-- a store that refuses the advanced state means no reply (no secret) on the advancing path -/
+theorem C02_fn_revoke_no_secret_without_write
+    (hc : f "policy-revoke-not-closed" = true) (hf : f "policy-revoke-new-commitment-signed" = true)
+    (self : Channel CommitmentSignatures InMemorySigner ChannelId)
+    (hrefuse : ∀ es u, persist es ≠ .ok u) :
+    ∀ r, Channel.revoke_previous_holder_commitment unchecked validator f rel fs incoming outgoing node getState claimable
+           validatePayments setNext persist self self.enforcement_state.next_holder_commit_num ≠ .ok r := by
+  intro ⟨self', pt, sec⟩ h
+  rcases C02_fn_revoke_previous_holder_commitment unchecked validator f rel fs incoming outgoing node getState claimable
+      validatePayments setNext persist hc hf self self' _ pt sec h with ⟨hne, _⟩ | ⟨_, _, _, _, es', _, _, _, hper, _⟩
+  · exact hne rfl
+  · exact hrefuse es' () hper
+
+/-- non-vacuity: an open channel at `next = 1` with a staged commitment advances to `next = 2`, writes, and discloses the
+    secret of commitment 0; the same request on a closed channel is refused with `policy-revoke-not-closed` -/
+example :
+    let mk (closed : Bool) : Channel Nat Nat Nat :=
+      { keys := 7, enforcement_state := { next_holder_commit_num := 1, next_holder_commit_info := some (⟨⟩, 5), channel_closed := closed },
+        setup := ⟨⟩, id0 := 0 }
+    let run (c : Channel Nat Nat Nat) (n : Nat) :=
+      Channel.revoke_previous_holder_commitment (PublicKey := Nat) (SecretKey := Nat) (Validator := Unit) (Secret32 := Nat)
+        (PaymentSummary := Unit) (Node := Unit) (NodeState := Unit) (BalanceDelta := Unit)
+        (fun n => n) () (fun _ => true) (fun _ i => some i) (fun s => some s) (fun _ _ _ => ()) (fun _ _ _ => ()) () (fun _ => ())
+        (fun _ _ _ _ _ => .ok ()) (fun _ _ _ _ _ _ => .ok ())
+        (fun _ es n _ _ => .ok { es with next_holder_commit_num := n }) (fun _ => .ok ()) c n
+    run (mk false) 1 = .ok ({ keys := 7, enforcement_state := { next_holder_commit_num := 2, next_holder_commit_info := none, channel_closed := false },
+                              setup := ⟨⟩, id0 := 0 }, (2, some 281474976710655))
+    ∧ run (mk true) 1 = .error (.err "policy-revoke-not-closed") :=
+  ⟨rfl, rfl⟩
+
+end Revoke
 
 end VlsModel.Props.C02Fn
